@@ -11,6 +11,19 @@ import (
 
 func init() {
 	for _, e := range [][2]string{
+		{"lexer.(Lexer).Tokenize#progress:for(pos<len(input))/continue@if(HandleSpecialToken(input,pos,line,linePos);ok)", "pos = result.NewPos: HandleSpecialToken returns ok only with NewPos > start (every handler returns start+k, k >= 1, on success); lower-bound return facts through struct fields are not tracked"},
+		{"lexer.(Lexer).Tokenize#progress:for(pos<len(input))/continue@if(l.matchLongestToken(input,pos);ok)", "pos += length: matchLongestToken returns ok only with a non-nil match, which is recorded only after currentPos advanced past pos; the correlation between the match pointer and the length is a disjunction"},
+		{"lexer.(Lexer).TokenizeTemplate#progress:for(pos<len(input))/continue@if(HandleSpecialToken(input,pos,line,linePos);ok)", "same as Tokenize"},
+		{"lexer.(Lexer).TokenizeTemplate#progress:for(pos<len(input))/continue@if(l.matchLongestToken(input,pos);ok)", "same as Tokenize"},
+		{"lexer.(Lexer).TokenizeTemplate#progress:for(pos<len(input))/end of body", "outer mode loop: the HTML branch ends with pos = len(input) or the position of '<?php' plus 5, the PHP branch is the inner loop that ends at '?>' (pos += 2) or at the end; progress of the inner loops is proven separately"},
+		{"lexer.(HtmlLexer).Tokenize#progress:for(h.pos<len(h.input))/continue@if(h.pos<len(h.input)&&h.isWhitespace(h.input[h.pos]))", "h.advance() under h.pos < len(h.input) advances by one (proven for the inner loops); here the fact is lost across the preceding chain of process* calls whose snapshots enlarge the zone beyond the widening budget"},
+	} {
+		assumeSite("C01-PROG", e[0], e[1])
+	}
+	for _, m := range []string{"processAssign", "processCdata", "processColon", "processHtmlComment", "processIdentifier", "processNumber", "processProcessingInstruction", "processWhitespace"} {
+		assumeSite("C01-PROG", "lexer.(HtmlLexer).Tokenize#progress:for(h.pos<len(h.input))/continue@if(h."+m+"();ok)", m+" returns ok only after a counted or guarded run of h.advance() calls from a position it has just tested to be inside the input; the conditional advance summary covers loops guarded by pos < len but not the fixed-count `for i := 0; i < n` form after a pos+n <= len test")
+	}
+	for _, e := range [][2]string{
 		{"lexer.handleHeredocString#slice:input[start:endPos]", "closure parameter: every call passes the result of tryCloseMarker (markerStart+len(identifier) <= len(input), checked inside it) and start+3 <= pos <= markerStart; relations between a closure parameter and captured integers are not tracked"},
 		{"parser.(ClassParser).Parse#index:p.tokens[i]@range(genericParamNames)", "i < endIdx where endIdx is either startIdx (then the loop body is unreachable since i starts at startIdx+1) or an index i' < len(p.tokens) found by the preceding scan: a disjunction the zone domain cannot keep"},
 		{"parser.(InterfaceParser).Parse#index:p.parser.tokens[i]@for(i<endIdx)", "same scan-then-rewrite shape as ClassParser.Parse: endIdx is startIdx or an index below len(tokens)"},
@@ -35,6 +48,8 @@ func init() {
 			"library models: strings.Index*/LastIndex* results, utf8.DecodeRune* sizes relative to the suffix they were computed on",
 		},
 		Rules: []RuleDef{
+			{Name: "C01-EOF", Floor: 40, Doc: "every token-driven loop of the parser leaves at end of input: its condition is false there, or no path through its body returns to the head (cursor predicates evaluated three-valued from accessor contracts that are themselves checked)", Run: c01EOF},
+			{Name: "C01-PROG", Floor: 20, Doc: "every cursor-bounded loop of the lexer strictly advances its cursor on each path back to the loop head", Run: c01Prog},
 			{Name: "C01-IDX", Floor: 60, Doc: "every s[i] / s[i:j] over strings and slices in lexer and parser is within bounds on every path (zone abstract interpretation; unresolved sites listed construct by construct)", Run: c01Idx},
 		},
 	})
@@ -46,8 +61,7 @@ func c01Idx(r *Run) {
 		if pkg == nil {
 			continue
 		}
-		a := newIdxAnalyzer(r, pkg)
-		a.runAll(funcDecls(pkg))
+		a := idxAnalysisOf(r, rel)
 		for _, co := range a.callObls {
 			key := fmt.Sprintf("%s#call-pre:%s", funcKey(pkg, co.fn), strings.ReplaceAll(co.what, " ", ""))
 			if co.ok {
@@ -74,6 +88,55 @@ func c01Idx(r *Run) {
 	_ = ast.Inspect
 }
 
+// c01Prog: every cursor-bounded loop of the lexer strictly advances its cursor on each path
+// that returns to the loop head (decided with the same zone interpretation as C01-IDX).
+func c01Prog(r *Run) {
+	pkg := r.pkg("lexer")
+	if pkg == nil {
+		return
+	}
+	a := idxAnalysisOf(r, "lexer")
+	var sites []*progSite
+	for _, ps := range a.progress {
+		sites = append(sites, ps)
+	}
+	sort.Slice(sites, func(i, j int) bool { return sites[i].site.Pos() < sites[j].site.Pos() })
+	for _, ps := range sites {
+		if !ps.seen {
+			continue
+		}
+		how := "end of body"
+		if _, ok := ps.site.(*ast.BranchStmt); ok {
+			how = "continue"
+		} else if ps.site == ast.Node(ps.loop) {
+			how = "after post statement"
+		}
+		if how == "continue" {
+			how += ifContext(ps.fn, ps.site.Pos())
+		}
+		key := fmt.Sprintf("%s#progress:for(%s)/%s", funcKey(pkg, ps.fn), strings.ReplaceAll(exprStr(ps.loop.Cond), " ", ""), how)
+		if ps.ok {
+			r.ok(key, ps.site.Pos(), "on this way back to the loop head "+ps.cursor+" has advanced by at least one")
+		} else {
+			r.bad(key, ps.site.Pos(), "this way back to the loop head does not advance "+ps.cursor+": the lexer can spin on some input")
+		}
+	}
+}
+
+// idxAnalysisOf runs (once per run) the zone analysis of a package.
+func idxAnalysisOf(r *Run, rel string) *idxAnalyzer {
+	if r.cache == nil {
+		r.cache = map[string]any{}
+	}
+	if a, ok := r.cache["idx:"+rel].(*idxAnalyzer); ok {
+		return a
+	}
+	a := newIdxAnalyzer(r, r.pkg(rel))
+	a.runAll(funcDecls(r.pkg(rel)))
+	r.cache["idx:"+rel] = a
+	return a
+}
+
 // loopContext names the innermost loop enclosing pos by its header, so that equal index
 // expressions in different loops of one function get different, edit-stable keys.
 func loopContext(fd *ast.FuncDecl, pos token.Pos) string {
@@ -91,6 +154,27 @@ func loopContext(fd *ast.FuncDecl, pos token.Pos) string {
 			}
 		case *ast.RangeStmt:
 			ctx = "range(" + strings.ReplaceAll(exprStr(x.X), " ", "") + ")"
+		}
+		return true
+	})
+	return ctx
+}
+
+// ifContext names the innermost if statement enclosing pos by its header.
+func ifContext(fd *ast.FuncDecl, pos token.Pos) string {
+	ctx := ""
+	ast.Inspect(fd.Body, func(n ast.Node) bool {
+		if n == nil || pos < n.Pos() || pos >= n.End() {
+			return n == nil || (pos >= n.Pos() && pos < n.End())
+		}
+		if x, ok := n.(*ast.IfStmt); ok && pos >= x.Body.Pos() && pos < x.Body.End() {
+			ctx = "@if("
+			if x.Init != nil {
+				if as, ok := x.Init.(*ast.AssignStmt); ok && len(as.Rhs) == 1 {
+					ctx += strings.ReplaceAll(exprStr(as.Rhs[0]), " ", "") + ";"
+				}
+			}
+			ctx += strings.ReplaceAll(exprStr(x.Cond), " ", "") + ")"
 		}
 		return true
 	})
